@@ -17,6 +17,7 @@ mod c09;
 mod c10;
 mod c11;
 mod c14;
+mod c15;
 mod rpc;
 mod tiered;
 mod c13;
@@ -84,6 +85,7 @@ fn main() {
             "C10" => c10::replay(&plan, &mut sum),
             "C11" => c11::replay(&plan, &mut sum),
             "C14" => c14::replay(&plan, &mut sum),
+            "C15" => c15::replay(&plan, &mut sum),
             "C19" => c19::replay(&plan, &mut sum),
             "C04" => c04::replay("C04", &plan, &mut sum),
             "C06" => c06::replay("C06", &plan, &mut sum),
@@ -107,6 +109,7 @@ fn main() {
             "C10" => c10::run_batch(seed, start, count, &tier, budget_ms, &mut sum),
             "C11" => c11::run_batch(seed, start, count, &tier, budget_ms, &mut sum),
             "C14" => c14::run_batch(seed, start, count, &tier, budget_ms, &mut sum),
+            "C15" => c15::run_batch(seed, start, count, &tier, budget_ms, &mut sum),
             "C19" => c19::run_batch(seed, start, count, &tier, budget_ms, &mut sum),
             "C04" => c04::run_batch("C04", seed, start, count, &tier, budget_ms, &mut sum),
             "C06" => c06::run_batch("C06", seed, start, count, &tier, budget_ms, &mut sum),
